@@ -3,9 +3,13 @@
 //! Exhaustive input enumeration (form I): every pair of a boundary set B of f64 bit patterns through every
 //! operation of `rlib_f80::f80`, then every pair of a fixed subset of the first-level RESULTS (full 64-bit
 //! significands), each compared with a software model of x87 double-extended arithmetic (`soft.rs`).
+//! Plus "dependent sequences" (`seq.rs`): small optimised loops in which ONE variable is compared, updated in
+//! place and compared again, judged against the model running the same sequence.
 
 #[cfg(target_arch = "x86_64")]
 mod engine;
+#[cfg(target_arch = "x86_64")]
+mod seq;
 #[cfg(target_arch = "x86_64")]
 mod soft;
 
